@@ -53,6 +53,13 @@ class DunderContract(ModeMixin, LibModel):
             return [(st, C(Ref('class', 'X')))]
         return super().getattr(eng, st, recv, name)
 
+    def compare(self, eng, st, op, a, b):
+        # any test relating self and the other operand (identity, equality of the raw objects) may go either way
+        objs = [x for x in (a, b) if (isinstance(x, Obj) and x.kind == 'operand') or (isinstance(x, ZV) and x.ty == 'node')]
+        if len(objs) == 2 and isinstance(op, (ast.Is, ast.IsNot, ast.Eq, ast.NotEq)):
+            return ZV(z3.FreshConst(Z.B, 'operands_related'), 'bool')
+        return super().compare(eng, st, op, a, b) if hasattr(super(), 'compare') else None
+
     def on_exit(self, eng, o):
         st = o.st
         mode = st.ghost['mode']
